@@ -260,7 +260,12 @@ func main() {
 	if c.Quick() {
 		for _, be := range backends {
 			for _, from := range []uint64{0, 1, 2, 3, 4} {
-				cfgs = append(cfgs, cfg{Backend: be, Chained: be != "bolt-untrimmed", H0: 3, Appends: 2, Starts: []uint64{from}, Bound: -1})
+				// memdb: saturation or as far as the budget goes; bolt (system calls per execution): 3 deviations
+				b := -1
+				if be != "memdb" {
+					b = 3
+				}
+				cfgs = append(cfgs, cfg{Backend: be, Chained: be != "bolt-untrimmed", H0: 3, Appends: 2, Starts: []uint64{from}, Bound: b})
 			}
 		}
 		cfgs = append(cfgs, cfg{Backend: "memdb", Chained: false, H0: 3, Appends: 2, Starts: []uint64{2, 2}, SameAddr: true, Bound: 3})
@@ -285,7 +290,7 @@ func main() {
 		k := k
 		jobs = append(jobs, vlib.E1Job{Name: "c11-stream/" + k.String(), Bound: k.Bound, Run: func(devs []vrt.Dev) *explore.Exec { return runOne(k, devs, false) }})
 	}
-	c.E1Batch(jobs, time.Until(c.Deadline(100*time.Second, 25*time.Minute)))
+	c.E1Batch(jobs, time.Until(c.Deadline(75*time.Second, 25*time.Minute)))
 	fix.RemoveTemplates()
 	c.Assume("scheduling points are channel, select, mutex, spawn and close operations of the instrumented packages (internal/chain/beacon, internal/chain/memdb); bbolt is an atomic library call",
 		"stream.Send is instantaneous and never fails in these configurations (slow/failing consumers are C12)",
